@@ -163,6 +163,41 @@ func buildC11Table(rng *gen.RNG) []c11Op {
 		}})
 		alone("IsKnownSuite+SuiteConfigFromRaws("+n+")", func() string { return fmt.Sprintf("%v %+v", otp.IsKnownSuite(n), otp.SuiteConfigFromRaws(n)) })
 	}
+	// a large family of distinct suite strings (far more than any bounded memo could hold), visited in rolling order
+	// by all goroutines: every parse must equal the reference parse of that very string
+	{
+		seen := map[string]bool{}
+		var fam, famWant []string
+		for len(fam) < 3000 {
+			n := genSuiteName(rng)
+			if seen[n] {
+				continue
+			}
+			seen[n] = true
+			w := "ERR"
+			if m, ok := ref.ParseSuiteNameFold(n); ok && ref.SuiteUsable(m) {
+				w = fmt.Sprintf("%+v", m)
+			}
+			fam = append(fam, n)
+			famWant = append(famWant, w)
+		}
+		var ctr atomic.Uint64
+		for k := 0; k < 12; k++ {
+			stride := uint64(1 + 2*k)
+			ops = append(ops, c11Op{desc: fmt.Sprintf("NewRawSuite(family of %d, stride %d)", len(fam), stride), want: "ok", exec: func() string {
+				j := int(ctr.Add(stride) % uint64(len(fam)))
+				s, err := otp.NewRawSuite(fam[j])
+				got := "ERR"
+				if err == nil {
+					got = fmt.Sprintf("%+v", fromCfg(s.Config()))
+				}
+				if got != famWant[j] {
+					return fmt.Sprintf("NewRawSuite(%q) = %s, reference %s", fam[j], got, famWant[j])
+				}
+				return "ok"
+			}})
+		}
+	}
 	alone("ListSuites", func() string {
 		l := otp.ListSuites()
 		res := append([]string(nil), l...)
